@@ -47,6 +47,7 @@ type Conn struct {
 	rx       []byte // delivered, not yet read by MOSN
 	rxEOF    bool
 	rxRST    bool
+	eofRead  bool // MOSN's Read has returned the EOF / reset
 	rxNotify chan struct{}
 	m2p      []seg // in flight towards the peer
 	mClosed  bool  // MOSN called Close
@@ -127,10 +128,12 @@ func (c *Conn) Read(p []byte) (int, error) {
 			return n, nil
 		}
 		if c.rxRST {
+			c.eofRead = true
 			c.mu.Unlock()
 			return 0, opErr("read", c, syscall.ECONNRESET)
 		}
 		if c.rxEOF {
+			c.eofRead = true
 			c.mu.Unlock()
 			return 0, io.EOF
 		}
@@ -299,12 +302,12 @@ func (c *Conn) PeerDone() bool {
 	return c.peerFin || c.peerGone
 }
 
-// LiveForMosn: MOSN has not closed it and has not yet been shown the peer's
+// LiveForMosn: MOSN has not closed it and its Read has not yet returned the peer's
 // FIN/RST: the connection every correct bookkeeping of MOSN must still count.
 func (c *Conn) LiveForMosn() bool {
 	c.mu.Lock()
 	defer c.mu.Unlock()
-	return !c.mClosed && !c.rxEOF && !c.rxRST
+	return !c.mClosed && !c.eofRead
 }
 
 // Open: neither side closed (the network's truth about a live connection).
